@@ -623,11 +623,13 @@ func (p *Prog) pubKeyLenOK(k ssa.Value, gs []guard, depth int) (bool, string) {
 		return false, "key provenance too deep"
 	}
 	uk := unwrap(k)
-	if _, isP := uk.(*ssa.Parameter); isP {
-		return true, "caller-supplied key (API parameter; the property quantifies over 32-byte keys)"
-	}
 	if lenGuardIn(p, gs, k, 32) || lenGuardIn(p, gs, uk, 32) {
 		return true, "len(key)==32 tested on every path"
+	}
+	if _, isP := uk.(*ssa.Parameter); isP {
+		// a key that a verifier looked up for the id the presented token announces is not under the
+		// presenter's control, but which entry is used is: a wrong-sized entry must yield an error, not a panic
+		return false, "the caller-supplied key " + shortD(k) + " reaches ed25519.Verify without a length test (a key of another size - one bad entry of a key map, selected by the id the token announces - panics)"
 	}
 	if ph, isPhi := uk.(*ssa.Phi); isPhi {
 		for i, e := range ph.Edges {
